@@ -211,3 +211,5 @@ func answer(status int, hdr http.Header, body []byte) upstreamScript {
 func serverOption() server.ServerOption { return server.ServerOption{Addr: ":0"} }
 
 func bytesBuf(s string) *bytes.Buffer { return bytes.NewBufferString(s) }
+
+var storeErrNotFound = store.ErrNotFound
